@@ -442,6 +442,7 @@ type funcContext struct {
 	unresolvedGotos map[int]*gotoLabelDesc
 	blockLevel      int
 	exprLevel       int
+	openDbgLocals   []*DbgLocalInfo // debug records of the locals whose scope has not ended yet, innermost last
 }
 
 func newFuncContext(sourcename string, parent *funcContext) *funcContext {
@@ -584,6 +585,7 @@ func (fc *funcContext) BlockLocalVarsCount() int {
 func (fc *funcContext) RegisterLocalVar(name string) int {
 	ret := fc.Block.LocalVars.Register(name)
 	fc.Proto.DbgLocals = append(fc.Proto.DbgLocals, &DbgLocalInfo{Name: name, StartPc: fc.Code.LastPC() + 1})
+	fc.openDbgLocals = append(fc.openDbgLocals, fc.Proto.DbgLocals[len(fc.Proto.DbgLocals)-1])
 	fc.SetRegTop(fc.RegTop() + 1)
 	return ret
 }
@@ -637,16 +639,18 @@ func (fc *funcContext) LeaveBlock() int {
 }
 
 func (fc *funcContext) EndScope() {
-	for _, vr := range fc.Block.LocalVars.List() {
-		// DbgLocals is in declaration order while vr.Index is a register number (registers are
-		// reused by later blocks): close the most recent entry of this name that is still open
-		for i := len(fc.Proto.DbgLocals) - 1; i >= 0; i-- {
-			if dl := fc.Proto.DbgLocals[i]; dl.Name == vr.Name && dl.EndPc == 0 {
-				dl.EndPc = fc.Code.LastPC()
-				break
-			}
-		}
+	// blocks nest, so the locals of the block that ends are the innermost records still open. (An
+	// end pc of 0 cannot stand for "open": `do local p end` as the first statement of a function
+	// ends at pc 0, and the end of the function then closed that record again instead of the
+	// parameter p's.)
+	n := len(fc.Block.LocalVars.List())
+	if n > len(fc.openDbgLocals) {
+		n = len(fc.openDbgLocals)
 	}
+	for _, dl := range fc.openDbgLocals[len(fc.openDbgLocals)-n:] {
+		dl.EndPc = fc.Code.LastPC()
+	}
+	fc.openDbgLocals = fc.openDbgLocals[:len(fc.openDbgLocals)-n]
 }
 
 func (fc *funcContext) SetRegTop(top int) {
